@@ -16,9 +16,7 @@ Modelling choices (see the check module's TRUSTED list):
   mapping writes (`git-mergetag-<i>` is a list); int-valued properties keep the
   integer (`str(int)`/`int(str)` are not modelled);
 * the `ASCII`-only string operations of the code (`in`, `split`, `rindex`,
-  `count`, `splitlines`) are done on the bytes (all codecs involved are
-  ASCII-transparent); `splitlines` also knows the UTF-8 forms of U+0085,
-  U+2028, U+2029.
+  `count`) are done on the bytes (all codecs involved are ASCII-transparent).
 -/
 namespace BreezyVerif.C34
 
@@ -274,27 +272,17 @@ def countByte (x : UInt8) (t : Bytes) : Nat := t.count x
 def firstAuthor (a : Bytes) : Bytes :=
   if 44 ∈ a ∧ countByte 62 a > 1 then a.takeWhile (· ≠ 44) else a
 
-/-- `str.splitlines()` on UTF-8 (surrogateescape) text, on the bytes -/
-def splitlines : Bytes → List Bytes
-  | [] => []
-  | 13 :: 10 :: rest => [] :: splitlines rest
-  | 0xc2 :: 0x85 :: rest => [] :: splitlines rest
-  | 0xe2 :: 0x80 :: 0xa8 :: rest => [] :: splitlines rest
-  | 0xe2 :: 0x80 :: 0xa9 :: rest => [] :: splitlines rest
-  | x :: rest =>
-    if x = 10 ∨ x = 13 ∨ x = 11 ∨ x = 12 ∨ x = 28 ∨ x = 29 ∨ x = 30 then [] :: splitlines rest
-    else match splitlines rest with
+/-- `text.split("\n")` (on the bytes: `\n` is ASCII in every codec involved) -/
+def splitNl : Bytes → List Bytes
+  | [] => [[]]
+  | x :: r =>
+    if x = 10 then [] :: splitNl r
+    else match splitNl r with
       | [] => [[x]]
-      | l :: ls => (x :: l) :: ls
+      | h :: t => (x :: h) :: t
 
-/-- no line boundary of `splitlines` occurs in `b` -/
-def lineFree : Bytes → Bool
-  | [] => true
-  | 0xc2 :: 0x85 :: _ => false
-  | 0xe2 :: 0x80 :: 0xa8 :: _ => false
-  | 0xe2 :: 0x80 :: 0xa9 :: _ => false
-  | x :: rest =>
-    !(x = 10 ∨ x = 13 ∨ x = 11 ∨ x = 12 ∨ x = 28 ∨ x = 29 ∨ x = 30) && lineFree rest
+/-- `rev.properties["git-extra"].split("\n")[:-1]` -/
+def extraLinesOf (b : Bytes) : List Bytes := (splitNl b).dropLast
 
 /-- `(k, v) = l.split(" ", 1)`; `none` = ValueError (no space) -/
 def splitKV (l : Bytes) : Option (Bytes × Bytes) :=
@@ -320,14 +308,19 @@ def exportParents : List Bytes → Except Err (List Bytes)
     | none => .error .lookup
     | some sha => if sha.length ≠ 40 then .error .assert else (exportParents rest).map (sha :: ·)
 
-/-- the encoding name `export_commit` computes from the properties:
-`git-explicit-encoding`, else `git-implicit-encoding`, else `"utf-8"` -/
-def encName (explicit implicit : Option Bytes) : Bytes :=
-  match explicit with
+/-- `rev.properties.get("git-implicit-encoding", "utf-8")` -/
+def implOr : Option Bytes → Bytes
   | some e => e
-  | none => match implicit with
+  | none => bs "utf-8"
+
+/-- the encoding name `export_commit` computes from the properties:
+`git-explicit-encoding`, else `git-implicit-encoding`, else `"utf-8"`; and when
+that is `"false"` (not a codec), `git-implicit-encoding` else `"utf-8"` again -/
+def encName (explicit implicit : Option Bytes) : Bytes :=
+  let e0 : Bytes := match explicit with
     | some e => e
-    | none => bs "utf-8"
+    | none => implOr implicit
+  if e0 = bs "false" then implOr implicit else e0
 
 /-- `fix_person_identifier(s.encode(encoding))` -/
 def exportIdent (k : Codec) (s : PStr) : Except Err Bytes :=
@@ -352,7 +345,7 @@ def exportGpgsig : Option PStr → Except Err (Option Bytes)
 def exportGitExtra : Option PStr → Except Err (List (Bytes × Bytes))
   | some e => match encode .se e with
     | .error x => .error x
-    | .ok b => exportExtra (splitlines b)
+    | .ok b => exportExtra (extraLinesOf b)
   | none => .ok []
 
 /-- `export_commit(rev, tree_sha, parent_lookup, lossy=True, verifiers=None)`;
